@@ -1902,10 +1902,49 @@ def replay_query_not_in(a):
     return a.replay_cases(exe, data, cases)
 
 
+def gac_comparator_pair(a):
+    """eval_guard_access_clause, binary path: exactly which (operator, negated?) pair reaches binary_operation"""
+    GAC = struct_fields(a.src, "rules/exprs.rs", "GuardAccessClause")
+    AC = struct_fields(a.src, "rules/exprs.rs", "AccessClause")
+
+    def m_evalres(ex, argv):
+        return ex.fresh_result(ex.opq(), "evr")
+    ex = a.exec(r"(?:(?:rules::)?eval::)?eval_guard_access_clause",
+                {"unary_operation": m_evalres, "binary_operation": m_evalres, "query": m_evalres, "resolve_function": m_evalres,
+                 "is_unary": lambda ex, av: ("bool", ex.fresh("Bool", "unary"))}, unroll=1, max_paths=20000)
+    a.fns.append("rules::eval::eval_guard_access_clause (comparator handed to the binary path)")
+    gac = ex.arg_env["_1"]
+    acl = field(ex, gac, GAC.index("access_clause"), "AccessClause")
+    neg = field(ex, gac, GAC.index("negation"), "bool")
+    cmpv = field(ex, acl, AC.index("comparator"), "(CmpOperator, bool)")
+    op, flag = field(ex, cmpv, 0, "CmpOperator"), field(ex, cmpv, 1, "bool")
+    bad, n = [], 0
+    for p in ex.paths:
+        for e in calls(p, "binary_operation"):
+            n += 1
+            c_ = e[2][2] if len(e[2]) > 2 else None
+            if not (c_ is not None and c_[0] == "tuple" and len(c_[1]) == 2 and c_[1][1][0] == "bool"):
+                bad.append(pc_term(p.pc))
+                continue
+            same_op = str(c_[1][0]) == str(op) or (c_[1][0][0] == "enum" and op[0] == "enum" and c_[1][0][2] == op[2])
+            if not same_op:
+                bad.append(pc_term(p.pc))
+                continue
+            bad.append(f"(and {pc_term(p.pc)} (not (= {c_[1][1][1]} (xor {flag[1]} {neg[1]}))))")
+    c = a.discharge("eval_guard_access_clause/comparator-pair", ex, bad,
+                    f"binary path of the clause evaluator ({n} calls over all paths): binary_operation receives the clause's OWN operator, unchanged, "
+                    "and the flag `operator-level not XOR prefix not` - prefix negation is folded into the flag and into nothing else (no "
+                    "operator is swapped for its complement)")
+    if c:
+        c["replay"] = replay_negation(a)
+        c["reproduced"] = c["replay"].get("reproduced", False)
+        a.candidates.append(c)
+
+
 SITES = {
-    "C01": [guard_block, type_block, binary_operation, operator_dispatch, match_value, common_operator, contained_in, eq_operation, in_operation, list_map_equality, flip_listin, unary_empty_on_expr, flip_queryin],
+    "C01": [guard_block, type_block, binary_operation, operator_dispatch, match_value, common_operator, contained_in, eq_operation, in_operation, list_map_equality, flip_listin, unary_empty_on_expr, flip_queryin, gac_comparator_pair],
     "C02": [guard_block, type_block, record_tracker, unary_empty_on_expr],
-    "C03": [flip_closure, negated_compare_wrapper, parser_clause_wiring, flip_listin, unary_empty_on_expr, flip_queryin],
+    "C03": [flip_closure, negated_compare_wrapper, parser_clause_wiring, flip_listin, unary_empty_on_expr, flip_queryin, gac_comparator_pair],
     "C13": [flip_closure, operator_dispatch, binary_operation, match_value, common_operator, contained_in, eq_operation, in_operation, list_map_equality, flip_listin, flip_queryin],
     "C18": [function_dispatch, elementwise, join_sequence],
 }
